@@ -15,9 +15,9 @@
 (* new id (LookupType* finds the existing internal type).  N1 and N2 bind  *)
 (* the same name to different types (the name is re-bound mid-stream).     *)
 (*                                                                         *)
-(* Every value has the same encoded size ValSize (the harness chooses the  *)
-(* payloads accordingly), typedef sizes follow from the structure, so the  *)
-(* byte threshold of Writer.Write is modelled exactly.                     *)
+(* Every value has the encoded size ValBytes(token) (the harness chooses   *)
+(* the payloads accordingly), typedef sizes follow from the structure, so  *)
+(* the byte threshold of Writer.Write is modelled exactly.                 *)
 (*                                                                         *)
 (* TLC explores every script of at most MaxOps operations for every        *)
 (* threshold, checks that the reader reconstructs exactly the written      *)
@@ -29,13 +29,13 @@ EXTENDS Integers, Sequences, FiniteSets, TLC, Json
 
 CONSTANTS MaxOps,       \* script length (Write/EndStream operations before the final Close)
           Threshes,     \* set of WriterOpts.FrameThresh values in bytes
-          ValSize,      \* encoded size of every value: uvarint(id) + zcode tag + body
+          ValSize,      \* encoded size of the padded values (see ValBytes)
           Emit          \* TRUE: print a CASE line per complete script
 
 \* ------------------------------------------------------------------ types
 Prims == {"int", "str"}
 PrimId(t) == IF t = "int" THEN 9 ELSE 25          \* zed.IDInt64, zed.IDString
-Complex == {"R", "A", "N1", "N2", "RN", "U"}
+Complex == {"R", "A", "N1", "N2", "RN", "U", "E", "RE"}
 TypeDef(t) ==
   CASE t = "R"  -> [kind |-> "record", kids |-> <<"int">>,       names |-> <<"a">>]
     [] t = "A"  -> [kind |-> "array",  kids |-> <<"R">>,         names |-> <<>>]
@@ -43,6 +43,11 @@ TypeDef(t) ==
     [] t = "N2" -> [kind |-> "named",  kids |-> <<"int">>,       names |-> <<"n">>]
     [] t = "RN" -> [kind |-> "record", kids |-> <<"N1", "str">>, names |-> <<"f", "g">>]
     [] t = "U"  -> [kind |-> "union",  kids |-> <<"int", "str">>, names |-> <<>>]
+    \* boundary typedefs: an enum whose LAST symbol is empty (the typedef, and with
+    \* it the types frame, ends with a zero-length counted string) and a record
+    \* whose last field name is empty
+    [] t = "E"  -> [kind |-> "enum",   kids |-> <<>>,            names |-> <<"a", "">>]
+    [] t = "RE" -> [kind |-> "record", kids |-> <<"int", "int">>, names |-> <<"a", "">>]
 \* External types the scripts may write.  Context 2 holds structural copies.
 Ext == ({1} \X (Complex \cup {"int"})) \cup ({2} \X {"R", "N1", "RN"})
 
@@ -53,12 +58,20 @@ IdOf(t, defs) == IF t \in Prims THEN PrimId(t) ELSE 29 + IndexOf(t, defs)   \* i
 \* The typedef as it appears on the wire: kind, names, referenced type ids.
 Desc(t, defs) == [kind |-> TypeDef(t).kind, names |-> TypeDef(t).names,
                   ids |-> [i \in 1..Len(TypeDef(t).kids) |-> IdOf(TypeDef(t).kids[i], defs)]]
-\* Bytes of a typedef (all ids < 128, all names one byte long):
-\* record 0x00 n (len name id)*, array 0x01 id, named 0x07 len name id, union 0x04 n id*
-DefBytes(t) == CASE TypeDef(t).kind = "record" -> 2 + 3 * Len(TypeDef(t).kids)
+\* Bytes of a typedef (all ids < 128, all counts and string lengths < 128):
+\* record 0x00 n (len name id)*, array 0x01 id, named 0x07 len name id,
+\* union 0x04 n id*, enum 0x05 n (len symbol)*
+SumLen(names) ==
+  LET F[i \in 0..Len(names)] == IF i = 0 THEN 0 ELSE F[i - 1] + Len(names[i])
+  IN  F[Len(names)]
+DefBytes(t) == CASE TypeDef(t).kind = "record" -> 2 + 2 * Len(TypeDef(t).kids) + SumLen(TypeDef(t).names)
                  [] TypeDef(t).kind = "array"  -> 2
-                 [] TypeDef(t).kind = "named"  -> 4
+                 [] TypeDef(t).kind = "named"  -> 3 + SumLen(TypeDef(t).names)
                  [] TypeDef(t).kind = "union"  -> 2 + Len(TypeDef(t).kids)
+                 [] TypeDef(t).kind = "enum"   -> 2 + Len(TypeDef(t).names) + SumLen(TypeDef(t).names)
+\* Encoded size of a value: uvarint(id) + zcode tag + body.  The harness pads
+\* every payload to ValSize bytes except the bare enum value (index < 2: 3 bytes).
+ValBytes(t) == IF t = "E" THEN 3 ELSE ValSize
 
 \* ----------------------------------------------------------------- writer
 VARIABLES thresh,    \* WriterOpts.FrameThresh
@@ -100,7 +113,8 @@ Write(c, t) ==
   /\ ~closed /\ Len(script) < MaxOps
   /\ LET st == Enc([encoded |-> encoded, defs |-> defs, pendT |-> pendT, pendTB |-> pendTB], c, t)
          pv == Append(pendV, <<IdOf(t, st.defs), c, t>>)
-         full == Len(pv) * ValSize >= thresh \/ st.pendTB >= thresh
+         vb == LET F[i \in 0..Len(pv)] == IF i = 0 THEN 0 ELSE F[i - 1] + ValBytes(pv[i][3]) IN F[Len(pv)]
+         full == vb >= thresh \/ st.pendTB >= thresh
      IN  /\ encoded' = st.encoded /\ defs' = st.defs
          /\ IF full
             THEN /\ wire' = Flushed(wire, st.pendT, pv)
